@@ -1139,6 +1139,8 @@ fn hyphen<'s>(input: &mut &'s str) -> PResult<Option<BoundSet>, SemverParseError
         let _ = literal("-").parse_next(input)?;
         let _ = space1(input)?;
         let upper = partial_version(input)?;
+        // loose form without a lower end: ` - 10` is just `10`
+        let lower = lower.unwrap_or_else(|| upper.clone());
         let upper = match upper {
             Partial { major: None, .. } => Predicate::Unbounded,
             Partial {
@@ -1167,17 +1169,10 @@ fn hyphen<'s>(input: &mut &'s str) -> PResult<Option<BoundSet>, SemverParseError
             }),
             partial => Predicate::Including(partial.into()),
         };
-        let bounds = if let Some(lower) = lower {
-            BoundSet::new(
-                Bound::Lower(Predicate::Including(lower.into())),
-                Bound::Upper(upper),
-            )
-        } else if upper == Predicate::Unbounded {
-            BoundSet::at_least(Predicate::Including((0, 0, 0).into()))
-        } else {
-            BoundSet::at_most(upper)
-        };
-        Ok(bounds)
+        Ok(BoundSet::new(
+            Bound::Lower(Predicate::Including(lower.into())),
+            Bound::Upper(upper),
+        ))
     }
 
     parser
